@@ -36,3 +36,138 @@ Proof. exact construct_function_cut_spec. Qed.
 Print Assumptions C12_identity_path.
 Print Assumptions C12_valid_paths.
 Print Assumptions C12_departures_rejected.
+
+(* ------------------------------------------------------------------------------------------------------------
+   Extension (second round): the semantic half (Lemmas/CutExec.v, CutExecEx.v, CutGraphOk.v) *)
+From Coq Require Import List String NArith ZArith Bool Arith.
+From Tealer Require Import Tables Leaves LeafPrelude Syntax Parse Cfg StackAst Keys Analysis Domains Detect Group Runs Eval Exec GraphWf ExecLemmas GroupLemmas CutExec CutExecEx CutGraphOk.
+
+(* THE SEMANTIC CLAUSE: the approving executions of the cut function are exactly the approving executions of the contract that FOLLOW the dispatch path (every departure from a path block before the last -- by an edge, or by returning from a call made there -- goes to the next path block) *)
+Theorem C12_executions_exact :
+  forall (p : prog) (t : teal) (path : list nat) (f' : func) (errs : list (nat * (nat * nat))),
+       parse_teal p = Ok t ->
+       construct_function t path = Ok (f', errs) ->
+       forall (e : env) (sem : opsem) (cfgs : list rconfig),
+       final_branch_free t -> Accepts e sem f' cfgs <-> Accepts e sem (whole_function t) cfgs /\ follows path cfgs.
+Proof. exact @cutfun_accepts_iff. Qed.
+
+(* in terms of block sequences: an approving execution of the contract that starts with the path and does not re-enter its earlier blocks is an execution of the cut function *)
+Theorem C12_executions_complete_prefix :
+  forall (p : prog) (t : teal) (path : list nat) (f' : func) (errs : list (nat * (nat * nat))),
+       parse_teal p = Ok t ->
+       construct_function t path = Ok (f', errs) ->
+       forall (e : env) (sem : opsem) (cfgs : list rconfig),
+       path_plain t path -> Accepts e sem (whole_function t) cfgs -> starts_with_path path cfgs -> Accepts e sem f' cfgs.
+Proof. exact @cutfun_accepts_complete_prefix. Qed.
+
+(* ... and every approving execution of the cut function (at least as long as the path) is one of the contract and starts with the path *)
+Theorem C12_executions_sound_prefix :
+  forall (p : prog) (t : teal) (path : list nat) (f' : func) (errs : list (nat * (nat * nat))),
+       parse_teal p = Ok t ->
+       construct_function t path = Ok (f', errs) ->
+       forall (e : env) (sem : opsem) (cfgs : list rconfig),
+       final_branch_free t ->
+       path_plain t path ->
+       Accepts e sem f' cfgs ->
+       Datatypes.length path <= Datatypes.length cfgs ->
+       Accepts e sem (whole_function t) cfgs /\ map fst (firstn (Datatypes.length path) cfgs) = path.
+Proof. exact @cutfun_accepts_sound_prefix_long. Qed.
+
+(* an error block ends every run that reaches it *)
+Theorem C12_err_blocks_stop_every_run :
+  forall (p : prog) (t : teal) (path : list nat) (f' : func) (errs : list (nat * (nat * nat))),
+       parse_teal p = Ok t ->
+       construct_function t path = Ok (f', errs) ->
+       forall (cfgs pre : list rconfig) (c : rconfig) (post : list rconfig),
+       Run f' cfgs -> cfgs = pre ++ c :: post -> max_idx (t_blocks t) < fst c -> post = nil.
+Proof. exact @cutfun_run_err_last. Qed.
+
+(* ... and never executes successfully *)
+Theorem C12_err_blocks_never_execute :
+  forall (p : prog) (t : teal) (path : list nat) (f' : func) (errs : list (nat * (nat * nat))),
+       parse_teal p = Ok t ->
+       construct_function t path = Ok (f', errs) ->
+       forall (e : env) (sem : opsem) (x : nat) (blk : block) (cs : list cval) (tr : StackLemmas.trace cval) (cs' : list cval),
+       fblock f' x = Some blk -> max_idx (t_blocks t) < x -> ~ bexec e sem (fn_prog f') blk cs tr cs'.
+Proof. exact @cutfun_err_fails. Qed.
+
+(* the cut function satisfies every graph fact the dataflow theorems need, so C06-C10 apply to it *)
+Theorem C12_cut_function_graph_ok :
+  forall (p : prog) (t : teal) (path : list nat) (f' : func) (errs : list (nat * (nat * nat))),
+       parse_teal p = Ok t -> struct_ok t -> construct_function t path = Ok (f', errs) -> graph_ok f'.
+Proof. exact @cutfun_graph_ok. Qed.
+
+(* C09/C10 instance "with respect to exactly those executions": the fee of every approving execution OF THE CONTRACT that starts with the path is within the bound the cut function reports for each block on it *)
+Theorem C12_fee_contexts_wrt_path_executions :
+  forall (p : prog) (t : teal) (path : list nat) (f' : func) (errs : list (nat * (nat * nat))) (e : env) (sem : opsem) 
+         (fam : keyfam) (tx : N) (fee : Z) (bc : list (nat * feeval)) (fuel : nat) (lo : list (nat * feeval)) (cfgs : list rconfig),
+       parse_teal p = Ok t ->
+       struct_ok t ->
+       construct_function t path = Ok (f', errs) ->
+       sem_ok e sem ->
+       env_ok e ->
+       fn_intcs (whole_function t) = e_intcs e ->
+       key_txn e fam = Some tx ->
+       e_field e tx "Fee" = VInt fee ->
+       (0 <= fee <= MAX_UINT64z)%Z ->
+       fee_leaves_ok (whole_function t) fam ->
+       init_constraints feeval fee_universal_set fee_null_set fee_union fee_intersection (fee_single (fn_intcs f') fam) f' = Some bc ->
+       solve feeval feeval_eqb fee_universal_set fee_null_set fee_union fee_intersection (fee_single (fn_intcs f') fam) f' fuel bc = Done lo ->
+       path_plain t path ->
+       Accepts e sem (whole_function t) cfgs ->
+       starts_with_path path cfgs ->
+       forall (b : nat) (st : list nat), In (b, st) cfgs -> exists v : feeval, lookup feeval lo b = Some v /\ LeafLemmas.fee_gamma v fee.
+Proof. exact @cutfun_fee_context_sound_prefix. Qed.
+
+(* C06 instance *)
+Theorem C12_size_index_contexts_wrt_path_executions :
+  forall (p : prog) (t : teal) (path : list nat) (f' : func) (errs : list (nat * (nat * nat))) (e : env) (sem : opsem) 
+         (sz : bool) (fuel : nat) (lo : list (nat * list Z)) (cfgs : list rconfig),
+       parse_teal p = Ok t ->
+       struct_ok t ->
+       construct_function t path = Ok (f', errs) ->
+       sem_ok e sem ->
+       env_ok e ->
+       fn_intcs (whole_function t) = e_intcs e ->
+       int_leaves_ok (whole_function t) sz ->
+       run_int f' fuel sz = Done lo ->
+       Accepts e sem (whole_function t) cfgs ->
+       follows path cfgs ->
+       forall (b : nat) (st : list nat), In (b, st) cfgs -> exists v : list Z, lookup (list Z) lo b = Some v /\ In (SingleLemmas.int_value sz e) v.
+Proof. exact @cutfun_int_context_sound_struct. Qed.
+
+(* subroutine blocks of the cut function are the contract's own *)
+Theorem C12_subroutine_blocks_shared :
+  forall (p : prog) (t : teal) (path : list nat) (f' : func) (errs : list (nat * (nat * nat))),
+       parse_teal p = Ok t ->
+       construct_function t path = Ok (f', errs) ->
+       forall (s : subroutine) (n : nat), In s (fn_subs f') -> In n (s_blocks s) -> ~ In n (fn_main f') -> fblock f' n = fblock (whole_function t) n.
+Proof. exact @cutfun_sub_blocks_shared. Qed.
+
+(* the cut function's program is the contract's plus appended custom err instructions *)
+Theorem C12_program_text :
+  forall (p : prog) (t : teal) (path : list nat) (f' : func) (errs : list (nat * (nat * nat))),
+       parse_teal p = Ok t -> construct_function t path = Ok (f', errs) -> exists m : nat, fn_prog f' = fn_prog (whole_function t) ++ repeat ERRI m.
+Proof. exact @cutfun_prog. Qed.
+
+(* REFUTED (finding D27): "every execution that starts with the path" is too strong -- an approving execution that loops back into an earlier path block and leaves it differently is not an execution of the cut function *)
+Theorem C12_loop_reentry_refuted :
+  exists (p : prog) (t : teal) (path : list nat) (f' : func) (errs : list (nat * (nat * nat))) (e : env) (sem : opsem) 
+       (cfgs : list rconfig),
+         parse_teal p = Ok t /\
+         construct_function t path = Ok (f', errs) /\
+         path_plain t path /\
+         sem_ok e sem /\ Accepts e sem (whole_function t) cfgs /\ map fst (firstn (Datatypes.length path) cfgs) = path /\ ~ Run f' cfgs.
+Proof. exact @cut_complete_naive_refuted. Qed.
+
+Print Assumptions C12_executions_exact.
+Print Assumptions C12_executions_complete_prefix.
+Print Assumptions C12_executions_sound_prefix.
+Print Assumptions C12_err_blocks_stop_every_run.
+Print Assumptions C12_err_blocks_never_execute.
+Print Assumptions C12_cut_function_graph_ok.
+Print Assumptions C12_fee_contexts_wrt_path_executions.
+Print Assumptions C12_size_index_contexts_wrt_path_executions.
+Print Assumptions C12_subroutine_blocks_shared.
+Print Assumptions C12_program_text.
+Print Assumptions C12_loop_reentry_refuted.
